@@ -4,23 +4,23 @@ HERE = os.path.dirname(os.path.abspath(__file__))
 VERIF = os.path.dirname(HERE)
 props = [json.loads(l) for l in open(os.path.join(VERIF, 'properties.jsonl'))]
 CLAIMS = {
-    'C19': 'PARTIAL -- the QUIC connector\'s shared-connection cache only: get_connection dials exactly when nothing is cached, caches what it dialled, leaves nothing cached after a failed dial, always comes back; connect forgets the shared connection whenever a request over it fails with a connection-level ("quic:") error, keeps it after a success, and reports the failure. These are necessary conditions for "new requests succeed again without a restart"; detection of a dead connection in time, the number of attempts, other connectors and tunnels open across the outage are NOT decided',
+    'C19': 'PARTIAL -- the QUIC connector\'s shared-connection cache only: get_connection dials exactly when nothing is cached, caches what it dialled, leaves nothing cached after a failed dial, always comes back; two consecutive requests on a freshly loaded connector: after a failed dial the next request dials again and is served if the upstream is back, after a successful dial the next one reuses the connection; connect forgets the shared connection whenever a request over it fails with a connection-level ("quic:") error, keeps it after a success, and reports the failure. These are necessary conditions for "new requests succeed again without a restart"; detection of a dead connection in time, the number of attempts, other connectors and tunnels open across the outage are NOT decided',
     'C09': 'PARTIAL -- the operator tables only: every binary operator spelling of the documented table (milu/readme.md) is listed by a precedence level of the parser and is the token that level\'s alt list (ordered choice of prefix matches, read from the MIR of op_N) picks on every input that starts with it; the levels are nested in the documented precedence order; parse2 has a constructor for every token the levels can produce. NOT decided: the rest of the grammar, whitespace/comments, and that minimally parenthesised expressions parse like fully parenthesised ones (that needs nom\'s combinators themselves)',
-    'C14': 'PARTIAL -- lock-discipline kernels only: the API handlers get_alive / get_history / get_rules / post_rules never hold a registry lock (live map, history list, rule list) across any other await, and h11c_handshake (HTTP and QUIC listeners) never holds the connection\'s lock while waiting for bytes from the client; decided as trace properties (acquire / await / drop order) of each function\'s MIR. These are sufficient conditions for "one stalled client cannot make others wait through these locks"; bounded completion time, lock fairness and multi-task scheduling are NOT decided',
-    'C10': 'PARTIAL -- (a) the inline stream hop: StreamFrameReader::read returns each frame exactly once and whole, from any carry-over state under any segmentation into <= 3 (5) reads; (b) the accept step of the reverse UDP listener: every datagram udp_accept accepts is handed to exactly one session, the one keyed by the datagram\'s (v4-mapped) source address, including the datagram that opens the session; a new session is registered with the channel its reader listens on. NOT decided: SOCKS5 UDP associate, tproxy UDP, UDP over HTTP/QUIC hops, the reply path and its labelling, anything involving more than one task',
-    'C01': 'PARTIAL -- the buffered (non-splice) relay only: one direction of copy_half, executed with its real tokio::select! lowering, writes to the destination exactly the bytes read from the source, in order, flushed, for any source of <= 6 bytes delivered in <= 2 (3) pieces and any buffer size 1..8; copy_bidi forwards and flushes the bytes the handshake\'s BufReader had already buffered on either side before it takes the buffered wrappers apart; the inline frame channel is built on the buffered stream (no read-ahead dropped). NOT decided: the splice(2) path, listener x connector pairings as such, isolation between connections, concurrency of the two directions',
+    'C14': 'PARTIAL -- lock-discipline kernels only: the API handlers get_alive / get_history / get_rules / post_rules never hold a registry lock (live map, history list, rule list) across any other await, h11c_handshake (HTTP and QUIC listeners) never holds the connection\'s lock while waiting for bytes from the client, process_request holds the rule list only while choosing, and one tick of the collector task holds the live map / history only for the in-memory bookkeeping (not while queueing access-log records); decided as trace properties (acquire / await / drop order) of each function\'s MIR. These are sufficient conditions for "one stalled client cannot make others wait through these locks"; bounded completion time, lock fairness and multi-task scheduling are NOT decided',
+    'C10': 'PARTIAL -- (a) the inline stream hop: StreamFrameReader::read returns each frame exactly once and whole, from any carry-over state under any segmentation into <= 3 (5) reads; (b) the accept step of the reverse UDP listener: every datagram udp_accept accepts is handed to exactly one session, the one keyed by the datagram\'s (v4-mapped) source address, including the datagram that opens the session; a new session is registered with the channel its reader listens on; whichever terminal callback ends a session (on_error / on_finish) removes it from the session table. NOT decided: SOCKS5 UDP associate, tproxy UDP, UDP over HTTP/QUIC hops, the reply path and its labelling, anything involving more than one task',
+    'C01': 'PARTIAL -- the buffered (non-splice) relay only: one direction of copy_half, executed with its real tokio::select! lowering, writes to the destination exactly the bytes read from the source, in order, flushed, for any source of <= 6 bytes delivered in <= 2 (3) pieces, any buffer size 1..8 and a destination that takes any 1..=len bytes per write (back-pressure); copy_bidi forwards and flushes the bytes the handshake\'s BufReader had already buffered on either side before it takes the buffered wrappers apart; the inline frame channel is built on the buffered stream (no read-ahead dropped). NOT decided: the splice(2) path, listener x connector pairings as such, isolation between connections, concurrency of the two directions',
     'C04': 'PARTIAL -- buffered mode only: a direction finishes Ok only at end of stream with everything delivered, end of stream is passed on (shutdown of the write side) after the data and nothing is written after it; copy_bidi reports the tunnel finished only after both directions ended, recording ClientShutdown and ServerShutdown, while an unfinished direction keeps being polled. NOT decided: "identically in both I/O modes" (splice path), FIN/RST on real sockets, promptness',
     'C02': 'the dispatcher opens an upstream iff the first-match result is an allowing rule whose connector has the feature (all symbolic outcome combinations of one request), Rule::evaluate\'s verdict mapping, the first-match closure, and cidr_match feeding the cidr crate exactly the parsed address',
     'C03': 'composition round trips (decoder run on the encoder\'s output inside one query) for the RPFM address attribute, SOCKS5-UDP header and SOCKS4/4a/5 request writer->reader, over all destinations (domain <= 300 bytes of 1-/2-byte UTF-8, all IPv4/IPv6, all ports), incl. mandatory refusal of unrepresentable ones',
     'C05': 'panic-site unreachability (MIR assert terminators, library preconditions, unwrap/expect, explicit panics) for every encodable peer-fed decoder: fragment reassembly, RPFM frames, stream frame reader, SOCKS-UDP, SOCKS request/reply readers, the HTTP request / response head readers and the CONNECT target parser (string splitting over-approximated), the upstream HTTP proxy reply handling',
-    'C06': 'trace properties of the dispatcher (established only after connect succeeded; one failure reply), reply bytes / codes of the SOCKS and HTTP callbacks, Content-Length == body, write-then-flush, SOCKS listener handshake branches',
+    'C06': 'trace properties of the dispatcher (established only after connect succeeded; one failure reply), reply bytes / codes of the SOCKS and HTTP callbacks, Content-Length == body, write-then-flush, SOCKS listener handshake branches, an upstream HTTP proxy counts as established only on a 2xx status, a SOCKS4/5 upstream counts as established iff it granted the request (real writer and reader on a scripted upstream)',
     'C07': 'SOCKS method selection laws on the real handshake, AuthData::check truth table, "routed only after the check passed" on the listener handshake',
     'C11': 'functional laws of fragmentation/reassembly: one inductive step from any state satisfying the representation invariant, producer step law, timer, malformed/inconsistent headers',
-    'C12': 'StreamFrameReader::read from an arbitrary carry-over state under any segmentation into <= K reads; truncation => error for the SOCKS readers; readers consume exactly their message',
+    'C12': 'StreamFrameReader::read from an arbitrary carry-over state under any segmentation into <= K reads; truncation => error for the SOCKS readers; the HTTP head readers never take the end of the stream for the end of the head; readers consume exactly their message',
     'C13': 'is_timeout against a symbolic clock, activity resets, per-connection period plumbing (create_context, idle_timeout, set_idle_timeout), start-up wiring of timeouts.idle, the ticker arm of copy_bidi',
-    'C16': 'per-direction byte counter == bytes relayed by the buffered copy_half; dispatcher lifecycle order (state sequence, exactly one terminal event, used connector recorded before use), ContextRefOps on_connect/on_error/enqueue bookkeeping, set_state appends exactly one entry, Drop queues the final record exactly once, id allocation, counters',
-    'C08': 'per builtin operator (unary, integer, boolean, comparison, index, to_string/to_integer): for exactly the operand types its own signature accepts -- operands being literals, let-bound names, 2-element arrays or let-bound arrays, evaluated through the real type_of/real_type_of/value_of/real_value_of -- call reaches no panic site, returns a value of the promised type and does not fail (division by zero/overflow/non-numeric string/out-of-range index excepted); the checker itself never panics on any argument count (0..3) of a nameable function or any tuple index; request.* accessors declare the type of the value they hand out; composed programs beyond one operator application are outside the bound',
-    'C18': 'panic-site unreachability in the hand-written configuration loaders (connectors/listeners from_value + from_config, rules::from_config, Rule::init, Filter::validate, load-balancer init/verify, socks connector init) for arbitrary YAML shapes; an accepted load balancer has only defined members, carries its compiled hashBy expression, and is not reachable from itself in any member graph of two balancers and one upstream (walk terminates); candidates confirmed against the real loader',
+    'C16': 'per-direction byte counter == bytes relayed by the buffered copy_half and never ahead of what the destination was given when a read / write / flush fails; one tick of the collector (batch consumed, history bounded, newest first, live list updated), the access-log writer (every record once, rotation loses nothing); dispatcher lifecycle order (state sequence, exactly one terminal event, used connector recorded before use), ContextRefOps on_connect/on_error/enqueue bookkeeping, set_state appends exactly one entry, Drop queues the final record exactly once, id allocation, counters',
+    'C08': 'per builtin operator (unary, integer, boolean, comparison, index, to_string/to_integer): for exactly the operand types its own signature accepts -- operands being literals, let-bound names, 2-element arrays or let-bound arrays, evaluated through the real type_of/real_type_of/value_of/real_value_of -- call reaches no panic site, returns a value of the promised type and does not fail (division by zero/overflow/non-numeric string/out-of-range index excepted); the checker itself never panics on any argument count (0..3) of a nameable function or any tuple index; request.* accessors declare the type of the value they hand out; every member of an accepted array literal (2..3 members: scalars, [], one-element arrays) has the element type the checker announces; composed programs beyond one operator application are outside the bound',
+    'C18': 'panic-site unreachability in the hand-written configuration loaders (connectors/listeners from_value + from_config, rules::from_config, Rule::init, Filter::validate, load-balancer init/verify, socks connector init) for arbitrary YAML shapes; an accepted load balancer has only defined members, carries its compiled hashBy expression, and is not reachable from itself in any member graph of two balancers and one upstream (walk terminates); a destination read from the configuration is never the internal Unknown placeholder the connectors treat as unreachable; an accepted access-log script format can format a record and the writer survives a record it cannot format; candidates confirmed against the real loader',
     'C15': 'set_rules: accepted iff every rule compiles and names an existing upstream; on rejection the previous list object is untouched; on acceptance the stored list is exactly the posted rules resolved to the upstreams they name',
     'C17': 'round-robin index = ticket mod n with one atomic fetch_add, hash-by index a function of (key value, n) only, random picks a member, the used member is the one recorded before it is used',
 }
